@@ -536,7 +536,9 @@ func (c *child) do(line string) string {
 			}
 		}
 		c.mgmt = true
-		modules.EnableModuleManagement(func(*modules.Module) { atomic.AddInt32(&c.notifyIn, 1) })
+		// no change-notify function: with one, every status change starts a "notify of change" worker in a
+		// goroutine of its own, whose start cannot be awaited — readings would race with it
+		modules.EnableModuleManagement(nil)
 		for _, a := range f[1:] {
 			kv := strings.SplitN(a, "=", 2)
 			if kv[1] == "on" {
